@@ -711,6 +711,7 @@ func (r *RootMetadata) UnmarshalJSON(data []byte) error {
 	type tempType struct {
 		Type               string                    `json:"type"`
 		Expires            string                    `json:"expires"`
+		Version            uint64                    `json:"version"`
 		RepositoryLocation string                    `json:"repositoryLocation,omitempty"`
 		Keys               map[string]*Key           `json:"keys"`
 		Roles              map[string]Role           `json:"roles"`
@@ -728,6 +729,7 @@ func (r *RootMetadata) UnmarshalJSON(data []byte) error {
 
 	r.Type = temp.Type
 	r.Expires = temp.Expires
+	r.Version = temp.Version
 	r.RepositoryLocation = temp.RepositoryLocation
 	r.Keys = temp.Keys
 	r.Roles = temp.Roles
